@@ -275,9 +275,14 @@ PROPS["C10"] = {
     "rule": "cases are (prime, tower, operation group, elements); tiny worlds: complete element spaces by odometer, alphabets above; all non-trivial; distinct by 64-bit hash; states = elements of the complete spaces; transitions = individual results compared.",
     "assumptions": ["reference quotient-ring arithmetic in ref_ext.h", "calls inside RLC_TRY"],
     "jobs": [
-        {"name": "fpx-w8", "world": "W8", "src": "props/C10_fpx.c", "share": 0.5},
-        {"name": "fpx-w64", "world": "W64", "src": "props/C10_fpx.c"},
-        {"name": "fpx-w64-381", "world": "W64-381", "src": "props/C10_fpx.c", "tiers": ("thorough",)},
+        {"name": "fpx-w8", "world": "W8", "src": "props/C10_fpx.c", "share": 0.5, "share_thorough": 0.28},
+        {"name": "fpx-w64", "world": "W64", "src": "props/C10_fpx.c", "share_thorough": 0.28},
+        {"name": "fpx-w64-381", "world": "W64-381", "src": "props/C10_fpx.c", "tiers": ("thorough",), "share": 0.08},
+        {"name": "fpx-w64-446", "world": "W64-446", "src": "props/C10_fpx.c", "tiers": ("thorough",), "share": 0.07},
+        {"name": "fpx-w64-315", "world": "W64-315", "src": "props/C10_fpx.c", "tiers": ("thorough",), "share": 0.07},
+        {"name": "fpx-w64-330", "world": "W64-330", "src": "props/C10_fpx.c", "tiers": ("thorough",), "share": 0.07},
+        {"name": "fpx-w64-575q", "world": "W64-575q", "src": "props/C10_fpx.c", "tiers": ("thorough",), "share": 0.07},
+        {"name": "fpx-w64-638", "world": "W64-638", "src": "props/C10_fpx.c", "tiers": ("thorough",), "share": 0.07},
     ],
 }
 
